@@ -25,12 +25,9 @@ pub broadcast axiom fn axiom_number_range(n: Number)
     requires #[trigger] n.is_int() ensures i64::MIN <= n.int_val() <= u64::MAX;
 #[verifier::external_body]
 pub struct Bytes { _p: u8 }
-// async_graphql_value::Name: a validated GraphQL name; only its text matters here
-pub struct Name { pub s: String }
-impl Name {
-    pub open spec fn text(&self) -> Seq<char> { self.s@ }
-    pub fn as_str(&self) -> (r: &str) ensures r@ == self.text() { self.s.as_str() }
-}
+// async_graphql_value::Name: a validated GraphQL name, Deref<Target = str>; represented as String (R-ty) so that
+// `&name`, `&*name`, `name.as_str()` and `==` keep their meaning. Only its text matters to the kernels.
+pub type Name = String;
 // InputValueError<T>: constructed from a message only (R-msg), never inspected by the kernels
 pub struct InputValueError { pub message: String }
 pub type InputValueResult<T> = Result<T, InputValueError>;
